@@ -55,6 +55,11 @@ def run_mutant(pid, m, repo="/repo"):
         keys = [l.split("key=", 1)[1].strip() for l in out.splitlines() if "key=" in l and "rule=" in l]
         if "fact export failed" in out:
             return m["id"], "nocompile", out[-600:]
+        if m.get("silent"):
+            # a behaviour-preserving edit: the check must stay silent
+            if keys or r.returncode != 0:
+                return m["id"], "false-alarm", "reported on a behaviour-preserving edit: %s" % (keys[:3],)
+            return m["id"], "caught", "silent, as required"
         hit = [k for k in keys if m["expect"] in k]
         if hit:
             return m["id"], "caught", hit[0]
@@ -65,6 +70,20 @@ def run_mutant(pid, m, repo="/repo"):
         return m["id"], "missed", "violations reported: %s" % (keys[:5],)
     finally:
         shutil.rmtree(d, ignore_errors=True)
+
+
+def load_refactors():
+    """behaviour-preserving edits (written by an independent sub-agent, /verif/refactors/*): every check must stay
+    silent on each of them"""
+    out = []
+    d = os.path.join(VERIF, "refactors")
+    if os.path.isdir(d):
+        for r in sorted(os.listdir(d)):
+            p = os.path.join(d, r, "patch.diff")
+            if os.path.exists(p):
+                out.append({"id": "refactor-" + r, "patch": os.path.join("refactors", r, "patch.diff"), "silent": True,
+                            "expect": ""})
+    return out
 
 
 def load_mutants(pid):
@@ -82,7 +101,7 @@ def load_mutants(pid):
 
 
 def run(pid, _dir=None, repo="/repo"):
-    ms = load_mutants(pid)
+    ms = load_mutants(pid) + load_refactors()
     run.last_summary = {"mutants": 0, "caught": 0, "stale": 0, "missed": 0, "results": []}
     if not ms:
         return 0
@@ -94,7 +113,7 @@ def run(pid, _dir=None, repo="/repo"):
     bad = 0
     for mid, status, info in results:
         print("selftest %s %s: %s  %s" % (pid, mid, status, info if status != "caught" else "[" + info + "]"))
-        if status in ("missed", "nocompile"):
+        if status in ("missed", "nocompile", "false-alarm"):
             bad += 1
     print("selftest %s: %d mutants, %d caught, %d stale, %d missed" % (
         pid, len(results), sum(1 for r in results if r[1] == "caught"), sum(1 for r in results if r[1] == "stale"), bad))
